@@ -162,8 +162,18 @@ def downcasts(idx, func):
             if p['kind'] == 'IfStmt':
                 ch = children(p)
                 cond = ch[1] if p.get('hasVar') or p.get('hasInit') else ch[0]
-                if x is not cond:
+                then = ch[2] if p.get('hasVar') or p.get('hasInit') else ch[1]
+                negated = any(y.get('kind') == 'UnaryOperator' and y.get('opcode') == '!' or
+                              y.get('kind') == 'BinaryOperator' and y.get('opcode') == '!=' for y in walk(cond))
+                if x is not cond and x is then and not negated:
+                    conds = [cond]
                     for y in walk(cond):
+                        # a bool local that names the test (`bool isLabel = token == A || token == B;`)
+                        if y['kind'] == 'DeclRefExpr' and (y.get('referencedDecl') or {}).get('kind') == 'VarDecl':
+                            d_ = idx.by_id.get(y['referencedDecl'].get('id'))
+                            if d_ is not None and qt(d_) in ('bool', 'const bool') and children(d_):
+                                conds.append(children(d_)[-1])
+                    for y in (z for c_ in conds for z in walk(c_)):
                         if y['kind'] == 'DeclRefExpr':
                             er = cast.enum_ref(y, idx)
                             if er:
@@ -175,22 +185,7 @@ def downcasts(idx, func):
                 sibs = children(p)
                 i = next((j for j, s_ in enumerate(sibs) if s_ is x), None)
                 if i is not None and id(p) in parents and parents[id(p)]['kind'] == 'SwitchStmt':
-                    j = i
-                    while j >= 0:
-                        y = sibs[j]
-                        lab = False
-                        while y['kind'] in ('CaseStmt', 'DefaultStmt'):
-                            lab = True
-                            if y['kind'] == 'CaseStmt':
-                                er = cast.enum_ref(children(y)[0], idx)
-                                if er:
-                                    toks.add(er[1])
-                            y = children(y)[-1]
-                        if lab and j < i:
-                            pass
-                        if j < i and any(z['kind'] in ('BreakStmt', 'ReturnStmt') for z in walk(sibs[j])) and not lab:
-                            break
-                        j -= 1
+                    toks |= _switch_group_tokens(idx, sibs, i)
             x = p
         return toks
 
@@ -227,6 +222,148 @@ def downcasts(idx, func):
         else:
             out.append(('tested', pos(n), tgt))
     return out
+
+
+def token_class_map(idx, root='hexasm::Directive'):
+    """Which directive classes can carry which token: {token name: set(class)}; the key '*' holds classes built with a token the
+    site does not fix.  Read from every construction site (constructor calls, make_unique) in the unit and from constructors that
+    pass a constant token to their base."""
+    hard = {}
+    for qn, rec in idx.records.items():
+        if not idx.derives_from(qn, root):
+            continue
+        for c in rec.ctors:
+            for ini in c.inits:
+                if ini.get('baseInit'):
+                    for y in walk(ini):
+                        er = cast.enum_ref(y, idx) if y.get('kind') == 'DeclRefExpr' else None
+                        if er and 'Token' in str(er[0] or 'Token'):
+                            hard.setdefault(qn, set()).add(er[1])
+    m = {}
+    for f in idx.all_funcs():
+        if f.body is None:
+            continue
+        parents = None
+        for n in walk(f.body):
+            cls, args = None, None
+            if n.get('kind') == 'CallExpr' and callee_of(n)[1] == 'make_unique':
+                mm = re.search(r'unique_ptr<((?:class |struct )?[\w:]+)', dqt(n) + ' ' + qt(n))
+                if mm:
+                    tn = mm.group(1).replace('class ', '').replace('struct ', '')
+                    cls = tn if tn in idx.records else idx._resolve_record_name(tn.split('::')[-1], f.cls or f.qname)
+                    args = call_args(n)
+            elif n.get('kind') in ('CXXConstructExpr', 'CXXTemporaryObjectExpr', 'CXXNewExpr'):
+                tn = re.sub(r'^(const )?(class |struct )?', '', qt(n)).replace('*', '').strip()
+                cls = tn if tn in idx.records else None
+                args = [c for c in children(n) if c.get('kind') != 'CXXDefaultArgExpr']
+                if cls and len(args) == 1 and cls.split('::')[-1] in (qt(args[0]) + dqt(args[0])):
+                    cls = None          # copy / move
+            if not cls or not idx.derives_from(cls, root):
+                continue
+            targ = [a for a in args if 'Token' in (qt(a) + dqt(a))]
+            if not targ:
+                for k in hard.get(cls, ()) or ['*']:
+                    m.setdefault(k, set()).add(cls)
+                continue
+            er = cast.enum_ref(targ[0], idx)
+            if er:
+                m.setdefault(er[1], set()).add(cls)
+                continue
+            # a token variable: the case labels around the site bound it (parser: `case Token::LDAM: ... make_unique<InstrImm>(opcode, ...)`)
+            if parents is None:
+                parents = {}
+                for a in walk(f.body):
+                    for b in children(a):
+                        parents[id(b)] = a
+            toks = _case_tokens_around(idx, n, parents)
+            for k in toks or ['*']:
+                m.setdefault(k, set()).add(cls)
+    return m
+
+
+def _switch_group_tokens(idx, sibs, i):
+    """Case labels under which statement i of a switch body runs: its own labels and those of the preceding siblings that fall through."""
+    toks = set()
+    j = i
+    while j >= 0:
+        y = sibs[j]
+        labs = []
+        while y['kind'] in ('CaseStmt', 'DefaultStmt'):
+            if y['kind'] == 'CaseStmt':
+                er = cast.enum_ref(children(y)[0], idx)
+                if er:
+                    labs.append(er[1])
+            else:
+                labs.append('default')
+            y = children(y)[-1]
+        if j < i and any(z['kind'] in ('BreakStmt', 'ReturnStmt', 'CXXThrowExpr', 'ContinueStmt') for z in walk(y)):
+            break           # the earlier statement does not fall through into statement i
+        toks.update(labs)
+        j -= 1
+    return toks
+
+
+def _case_tokens_around(idx, n, parents):
+    toks = set()
+    x = n
+    while id(x) in parents:
+        p = parents[id(x)]
+        if p['kind'] == 'CompoundStmt' and id(p) in parents and parents[id(p)]['kind'] == 'SwitchStmt':
+            sibs = children(p)
+            i = next((j for j, s_ in enumerate(sibs) if s_ is x), None)
+            if i is not None:
+                return _switch_group_tokens(idx, sibs, i)
+            return toks
+        x = p
+    return toks
+
+
+def token_guard_verdict(idx, func, use, tgt, tmap):
+    """For a dereferenced cast recorded as 'deref-guarded:<tokens>': (True, reason) when every guarding token is carried only by classes
+    derived from the target; (False, reason) when some carrier is not; (None, reason) when the guard is not a plain token set."""
+    if not use.startswith('deref-guarded:'):
+        return None, 'no token guard'
+    toks = [t for t in use.split(':', 1)[1].split(',') if t]
+    if not toks or any(t.endswith('()') for t in toks):
+        return None, 'guard is not a token test'
+    t = re.sub(r'^(const )?(class |struct )?', '', tgt).replace('*', '').strip()
+    tcls = t if t in idx.records else idx._resolve_record_name(t.split('::')[-1], func.cls or func.qname)
+    if not tcls:
+        return None, 'target class not resolved'
+    for k in toks:
+        carriers = set(tmap.get(k, ())) | set(tmap.get('*', ()))
+        if not tmap.get(k):
+            return None, 'no construction site passes Token::%s' % k
+        wrong = sorted(c for c in carriers if not idx.derives_from(c, tcls))
+        if wrong:
+            return False, 'Token::%s is also carried by %s, which is not a %s: the cast yields null there' % (k, ', '.join(wrong), tcls)
+    return True, 'under a test for %s; every construction site that passes such a token builds a %s' % ('/'.join(toks), tcls)
+
+
+def rule_downcasts(rep, rid, idx, prefix, table):
+    """Every dereferenced dynamic_cast is null-tested, or sits under a token test whose tokens are carried only by classes derived from
+    the target (read from all construction sites of the unit), or under a verified type predicate, or is covered by the named table."""
+    tmap = token_class_map(idx)
+    for f in idx.all_funcs():
+        if f.body is None or f.node.get('isImplicit') or not f.qname.startswith(prefix):
+            continue
+        for use, where, tgt in downcasts(idx, f):
+            key = '%s:%s' % (f.qname, tgt)
+            if use == 'tested':
+                rep.add(rid, key + ':tested', True, where + ' ' + f.qname, 'result is null-tested', nontrivial=False)
+                continue
+            v, why = token_guard_verdict(idx, f, use, tgt, tmap)
+            if v is True:
+                rep.add(rid, key, True, where + ' ' + f.qname, why, nontrivial=False)
+            elif v is False:
+                rep.add(rid, key, False, where + ' ' + f.qname, 'dynamic_cast<%s> is dereferenced under a token test that does not imply the type: %s' % (tgt, why))
+            elif (f.qname, tgt) in table:
+                rep.add(rid, key, True, where + ' ' + f.qname, '%s (%s)' % (use, table[(f.qname, tgt)]), nontrivial=False)
+            elif use == 'deref-unguarded':
+                rep.add(rid, key, False, where + ' ' + f.qname,
+                        'dynamic_cast<%s> is dereferenced without a null test, a token test or a recorded guard: an object of another class makes it null' % tgt)
+            else:
+                rep.undecided(rid, key, 'dereferenced under a guard this rule cannot verify (%s; %s)' % (use, why), where + ' ' + f.qname)
 
 
 def _vars_in(e):
